@@ -143,20 +143,6 @@ Definition mtmeth_iface_fns : program :=
     {| fn_name := "ProxyT::migrate_method"; fn_params := ["self"; "args"]; fn_consts := [];
      fn_body := (EBlock [SLet (PVar "msg") (ECon "MigrateMsg::new" [(EVar "args")]); STail (ECall "MigrateProxy::new" [(EField (EVar "self") "contract_addr"); (EVar "msg"); (EField (EVar "self") "app")])]) |} ].
 
-(* sylvia-derive: decision logic of the macro - EntryPoints::emit (which entry points exist) and get_entry_point *)
-Definition macro_fns : program :=
-  [ {| fn_name := "EntryPoints::emit"; fn_params := ["self"]; fn_consts := [];
-     fn_body := (EBlock [SLet (PRec "EntryPoints" [("source", (PVar "source")); ("reply", (PVar "reply")); ("override_entry_points", (PVar "override_entry_points")); ("generics", (PVar "generics")); ("where_clause", (PVar "where_clause"))]) (EVar "self"); SLet (PVar "entry_points") (EBlock [SLet (PVar "map_src1") (EArr [(ECon "MsgType::Instantiate" []); (ECon "MsgType::Exec" []); (ECon "MsgType::Query" []); (ECon "MsgType::Sudo" [])]); SLet (PVar "map_acc1") (EArr []); SExpr (EFor "map_i1" (EConst (VNat 0)) (ECall "len" [EVar "map_src1"]) (EBlock [SLet (PVar "msg_ty") (EIndex (EVar "map_src1") (EVar "map_i1")); STail (EAssign "map_acc1" [] (ECall "push" [EVar "map_acc1"; (EMatch (ECall "get_entry_point" [(EVar "override_entry_points"); (EVar "msg_ty")]) [((PCon "Some" [PWild]), (ECon "quote" [EConst (VStr ""); ERecord "holes" [] None])); ((PCon "None" []), (ECall "extern::emit_default_entry_point" [(EVar "self"); (EVar "msg_ty")]))])]))])); STail (EVar "map_acc1")]); SLet (PVar "is_migrate") (ECall "is_some" [(ECall "extern::get_only_variant" [(ECall "extern::MsgVariants::new" [(ECall "extern::as_variants" [(EVar "source")]); (ECon "MsgType::Migrate" []); (EVar "generics"); (EVar "where_clause")])])]); SLet (PVar "migrate_not_overridden") (ECall "is_none" [(ECall "get_entry_point" [(EVar "override_entry_points"); (ECon "MsgType::Migrate" [])])]); SLet (PVar "migrate") (EIf (EBin "&&" (EVar "migrate_not_overridden") (EVar "is_migrate")) (EBlock [STail (ECall "extern::emit_default_entry_point" [(EVar "self"); (ECon "MsgType::Migrate" [])])]) (EBlock [STail (ECon "quote" [EConst (VStr ""); ERecord "holes" [] None])])); SLet (PVar "reply_ep") (EMatch (EMatch (ECall "get_entry_point" [(EVar "override_entry_points"); (ECon "MsgType::Reply" [])]) [(PCon "Ok" [PVar "hof_v2"], ECon "Ok" [EBlock [SLet (PWild) (EVar "hof_v2"); STail (ECon "quote" [EConst (VStr ""); ERecord "holes" [] None])]]); (PCon "Err" [PVar "hof_v2"], ECon "Err" [EVar "hof_v2"]); (PCon "Some" [PVar "hof_v2"], ECon "Some" [EBlock [SLet (PWild) (EVar "hof_v2"); STail (ECon "quote" [EConst (VStr ""); ERecord "holes" [] None])]]); (PCon "None" [], ECon "None" [])]) [(PCon "Some" [PVar "unwrap_v"], EVar "unwrap_v"); (PCon "None" [], (EBlock [STail (EIf (ECall "is_some" [(EVar "reply")]) (EBlock [STail (ECall "extern::emit_default_entry_point" [(EVar "self"); (ECon "MsgType::Reply" [])])]) (EBlock [STail (ECon "quote" [EConst (VStr ""); ERecord "holes" [] None])]))]))]); STail (ECon "quote" [EConst (VStr "pub mod entry_points { use super ::*; # (# entry_points) * # migrate # reply_ep }"); ERecord "holes" [("entry_points", EVar "entry_points"); ("migrate", EVar "migrate"); ("reply_ep", EVar "reply_ep")] None])]) |};
-    {| fn_name := "get_entry_point"; fn_params := ["self"; "ty"]; fn_consts := [];
-     fn_body := (EBlock [STail (EBlock [SLet (PVar "find_src1") (EVar "self"); SLet (PVar "find_res1") (ECon "None" []); SExpr (EFor "find_i1" (EConst (VNat 0)) (ECall "len" [EVar "find_src1"]) (EBlock [STail (EIfLet (PCon "None" []) (EVar "find_res1") (EBlock [SLet (PVar "entry_point") (EIndex (EVar "find_src1") (EVar "find_i1")); STail (EIf (EBin "==" (EField (EVar "entry_point") "msg_type") (EVar "ty")) (EAssign "find_res1" [] (ECon "Some" [EVar "entry_point"])) (EConst VUnit))]) (EConst VUnit))])); STail (EVar "find_res1")])]) |} ].
-
-(* sylvia-derive: which body each operation of the generated `impl cw_multi_test::Contract` gets (contract/mt.rs) *)
-Definition mtlogic_fns : program :=
-  [ {| fn_name := "MtHelpers::emit_impl_contract"; fn_params := ["self"]; fn_consts := [];
-     fn_body := (EBlock [SLet (PRec "MtHelpers" [("source", (PVar "source")); ("contract_name", (PVar "contract_name")); ("custom", (PVar "custom")); ("override_entry_points", (PVar "override_entry_points")); ("sv_features", (PVar "sv_features")); ("generic_params", (PVar "generic_params")); ("migrate_variants", (PVar "migrate_variants")); ("reply_variants", (PVar "reply_variants"))]) (EVar "self"); SLet (PVar "sylvia") (ECall "extern::crate_module" []); SLet (PVar "bracketed_generics") (ECall "extern::emit_bracketed_generics" [(EVar "generic_params")]); SLet (PVar "full_where_clause") (EField (EField (EVar "source") "generics") "where_clause"); SLet (PVar "instantiate_body") (EMatch (EMatch (ECall "get_entry_point" [(EVar "override_entry_points"); (ECon "MsgType::Instantiate" [])]) [(PCon "Ok" [PVar "hof_v1"], ECon "Ok" [ECall "extern::emit_multitest_dispatch" [EVar "hof_v1"]]); (PCon "Err" [PVar "hof_v1"], ECon "Err" [EVar "hof_v1"]); (PCon "Some" [PVar "hof_v1"], ECon "Some" [ECall "extern::emit_multitest_dispatch" [EVar "hof_v1"]]); (PCon "None" [], ECon "None" [])]) [(PCon "Some" [PVar "unwrap_v"], EVar "unwrap_v"); (PCon "None" [], (ECall "emit_default_dispatch" [(ECon "MsgType::Instantiate" []); (EVar "contract_name")]))]); SLet (PVar "exec_body") (EMatch (EMatch (ECall "get_entry_point" [(EVar "override_entry_points"); (ECon "MsgType::Exec" [])]) [(PCon "Ok" [PVar "hof_v2"], ECon "Ok" [ECall "extern::emit_multitest_dispatch" [EVar "hof_v2"]]); (PCon "Err" [PVar "hof_v2"], ECon "Err" [EVar "hof_v2"]); (PCon "Some" [PVar "hof_v2"], ECon "Some" [ECall "extern::emit_multitest_dispatch" [EVar "hof_v2"]]); (PCon "None" [], ECon "None" [])]) [(PCon "Some" [PVar "unwrap_v"], EVar "unwrap_v"); (PCon "None" [], (ECall "emit_default_dispatch" [(ECon "MsgType::Exec" []); (EVar "contract_name")]))]); SLet (PVar "query_body") (EMatch (EMatch (ECall "get_entry_point" [(EVar "override_entry_points"); (ECon "MsgType::Query" [])]) [(PCon "Ok" [PVar "hof_v3"], ECon "Ok" [ECall "extern::emit_multitest_dispatch" [EVar "hof_v3"]]); (PCon "Err" [PVar "hof_v3"], ECon "Err" [EVar "hof_v3"]); (PCon "Some" [PVar "hof_v3"], ECon "Some" [ECall "extern::emit_multitest_dispatch" [EVar "hof_v3"]]); (PCon "None" [], ECon "None" [])]) [(PCon "Some" [PVar "unwrap_v"], EVar "unwrap_v"); (PCon "None" [], (ECall "emit_default_dispatch" [(ECon "MsgType::Query" []); (EVar "contract_name")]))]); SLet (PVar "sudo_body") (EMatch (EMatch (ECall "get_entry_point" [(EVar "override_entry_points"); (ECon "MsgType::Sudo" [])]) [(PCon "Ok" [PVar "hof_v4"], ECon "Ok" [ECall "extern::emit_multitest_dispatch" [EVar "hof_v4"]]); (PCon "Err" [PVar "hof_v4"], ECon "Err" [EVar "hof_v4"]); (PCon "Some" [PVar "hof_v4"], ECon "Some" [ECall "extern::emit_multitest_dispatch" [EVar "hof_v4"]]); (PCon "None" [], ECon "None" [])]) [(PCon "Some" [PVar "unwrap_v"], EVar "unwrap_v"); (PCon "None" [], (ECall "emit_default_dispatch" [(ECon "MsgType::Sudo" []); (EVar "contract_name")]))]); SLet (PVar "migrate_body") (EBlock [SLet (PVar "match_s5") (ECall "get_entry_point" [(EVar "override_entry_points"); (ECon "MsgType::Migrate" [])]); STail (EMatch (EVar "match_s5") [((PCon "Some" [(PVar "entry_point")]), (ECall "extern::emit_multitest_dispatch" [(EVar "entry_point")])); ((PCon "None" []), EIf (ECall "is_some" [(ECall "extern::get_only_variant" [(EVar "migrate_variants")])]) (EBlock [STail (ECall "emit_default_dispatch" [(ECon "MsgType::Migrate" []); (EVar "contract_name")])]) (EMatch (EVar "match_s5") [((PCon "None" []), (ECon "quote" [EConst (VStr "# sylvia :: anyhow :: bail ! (""migrate not implemented for contract"")"); ERecord "holes" [("sylvia", EVar "sylvia")] None]))])); ((PCon "None" []), (ECon "quote" [EConst (VStr "# sylvia :: anyhow :: bail ! (""migrate not implemented for contract"")"); ERecord "holes" [("sylvia", EVar "sylvia")] None]))])]); SLet (PVar "reply_body") (EMatch (ECall "get_entry_point" [(EVar "override_entry_points"); (ECon "MsgType::Reply" [])]) [((PCon "Some" [(PVar "entry_point")]), (ECall "extern::emit_multitest_dispatch" [(EVar "entry_point")])); ((PCon "None" []), (EMatch (EMatch (ECall "into" [(ECall "extern::get_only_variant" [(EVar "reply_variants")])]) [(PCon "Ok" [PVar "hof_v6"], ECon "Ok" [EBlock [SLet (PVar "_reply") (EVar "hof_v6"); STail (EBlock [SLet (PVar "contract_ident") (ECall "extern::get_ident_from_type" [(EVar "contract_name")]); SLet (PVar "contract_turbofish") (EIf (ENot (ECall "is_empty" [(EVar "generic_params")])) (EBlock [STail (ECon "quote" [EConst (VStr "# contract_ident ::< # (# generic_params ,) * >"); ERecord "holes" [("contract_ident", EVar "contract_ident"); ("generic_params", EVar "generic_params")] None])]) (EBlock [STail (ECon "quote" [EConst (VStr "# contract_ident"); ERecord "holes" [("contract_ident", EVar "contract_ident")] None])])); STail (EIf (EField (EVar "sv_features") "replies") (EBlock [STail (ECon "quote" [EConst (VStr "let contract = # contract_turbofish :: new () ; dispatch_reply (deps , env , msg , contract) . map_err (Into :: into)"); ERecord "holes" [("contract_turbofish", EVar "contract_turbofish")] None])]) (EBlock [SLet (PVar "reply_name") (ECall "extern::function_name" [(EVar "_reply")]); STail (ECon "quote" [EConst (VStr "self . # reply_name ((deps , env) . into () , msg) . map_err (Into :: into)"); ERecord "holes" [("reply_name", EVar "reply_name")] None])]))])]]); (PCon "Err" [PVar "hof_v6"], ECon "Err" [EVar "hof_v6"]); (PCon "Some" [PVar "hof_v6"], ECon "Some" [EBlock [SLet (PVar "_reply") (EVar "hof_v6"); STail (EBlock [SLet (PVar "contract_ident") (ECall "extern::get_ident_from_type" [(EVar "contract_name")]); SLet (PVar "contract_turbofish") (EIf (ENot (ECall "is_empty" [(EVar "generic_params")])) (EBlock [STail (ECon "quote" [EConst (VStr "# contract_ident ::< # (# generic_params ,) * >"); ERecord "holes" [("contract_ident", EVar "contract_ident"); ("generic_params", EVar "generic_params")] None])]) (EBlock [STail (ECon "quote" [EConst (VStr "# contract_ident"); ERecord "holes" [("contract_ident", EVar "contract_ident")] None])])); STail (EIf (EField (EVar "sv_features") "replies") (EBlock [STail (ECon "quote" [EConst (VStr "let contract = # contract_turbofish :: new () ; dispatch_reply (deps , env , msg , contract) . map_err (Into :: into)"); ERecord "holes" [("contract_turbofish", EVar "contract_turbofish")] None])]) (EBlock [SLet (PVar "reply_name") (ECall "extern::function_name" [(EVar "_reply")]); STail (ECon "quote" [EConst (VStr "self . # reply_name ((deps , env) . into () , msg) . map_err (Into :: into)"); ERecord "holes" [("reply_name", EVar "reply_name")] None])]))])]]); (PCon "None" [], ECon "None" [])]) [(PCon "Some" [PVar "unwrap_v"], EVar "unwrap_v"); (PCon "None" [], (EBlock [STail (ECon "quote" [EConst (VStr "# sylvia :: anyhow :: bail ! (""reply not implemented for contract"")"); ERecord "holes" [("sylvia", EVar "sylvia")] None])]))]))]); SLet (PVar "custom_msg") (ECall "extern::msg_or_default" [(EVar "custom")]); SLet (PVar "custom_query") (ECall "extern::query_or_default" [(EVar "custom")]); STail (ECon "quote" [EConst (VStr "impl # bracketed_generics # sylvia :: cw_multi_test :: Contract <# custom_msg , # custom_query > for # contract_name # full_where_clause { fn execute (& self , deps : # sylvia :: cw_std :: DepsMut < # custom_query >, env : # sylvia :: cw_std :: Env , info : # sylvia :: cw_std :: MessageInfo , msg : Vec < u8 >,) -> # sylvia :: anyhow :: Result <# sylvia :: cw_std :: Response <# custom_msg >> { # exec_body } fn instantiate (& self , deps : # sylvia :: cw_std :: DepsMut <# custom_query >, env : # sylvia :: cw_std :: Env , info : # sylvia :: cw_std :: MessageInfo , msg : Vec < u8 >,) -> # sylvia :: anyhow :: Result <# sylvia :: cw_std :: Response <# custom_msg >> { # instantiate_body } fn query (& self , deps : # sylvia :: cw_std :: Deps <# custom_query >, env : # sylvia :: cw_std :: Env , msg : Vec < u8 >,) -> # sylvia :: anyhow :: Result <# sylvia :: cw_std :: Binary > { # query_body } fn sudo (& self , deps : # sylvia :: cw_std :: DepsMut <# custom_query >, env : # sylvia :: cw_std :: Env , msg : Vec < u8 >,) -> # sylvia :: anyhow :: Result <# sylvia :: cw_std :: Response <# custom_msg >> { # sudo_body } fn reply (& self , deps : # sylvia :: cw_std :: DepsMut <# custom_query >, env : # sylvia :: cw_std :: Env , msg : # sylvia :: cw_std :: Reply ,) -> # sylvia :: anyhow :: Result <# sylvia :: cw_std :: Response <# custom_msg >> { # reply_body } fn migrate (& self , deps : # sylvia :: cw_std :: DepsMut <# custom_query >, env : # sylvia :: cw_std :: Env , msg : Vec < u8 >,) -> # sylvia :: anyhow :: Result <# sylvia :: cw_std :: Response <# custom_msg >> { # migrate_body } }"); ERecord "holes" [("bracketed_generics", EVar "bracketed_generics"); ("sylvia", EVar "sylvia"); ("custom_msg", EVar "custom_msg"); ("custom_query", EVar "custom_query"); ("contract_name", EVar "contract_name"); ("full_where_clause", EVar "full_where_clause"); ("exec_body", EVar "exec_body"); ("instantiate_body", EVar "instantiate_body"); ("query_body", EVar "query_body"); ("sudo_body", EVar "sudo_body"); ("reply_body", EVar "reply_body"); ("migrate_body", EVar "migrate_body")] None])]) |};
-    {| fn_name := "emit_default_dispatch"; fn_params := ["msg_ty"; "contract_name"]; fn_consts := [];
-     fn_body := (EBlock [SLet (PVar "sylvia") (ECall "extern::crate_module" []); SLet (PVar "values") (ECall "extern::emit_ctx_values" [(EVar "msg_ty")]); SLet (PVar "msg_name") (ECall "extern::as_accessor_wrapper_name" [(EVar "msg_ty")]); SLet (PVar "api_msg") (ECon "quote" [EConst (VStr "< # contract_name as # sylvia :: types :: ContractApi > :: # msg_name"); ERecord "holes" [("contract_name", EVar "contract_name"); ("sylvia", EVar "sylvia"); ("msg_name", EVar "msg_name")] None]); STail (ECon "quote" [EConst (VStr "# sylvia :: cw_std :: from_json ::< # api_msg > (& msg) ? . dispatch (self , (# values)) . map_err (Into :: into)"); ERecord "holes" [("sylvia", EVar "sylvia"); ("api_msg", EVar "api_msg"); ("values", EVar "values")] None])]) |} ].
-
 (* sylvia/src/into_response.rs: IntoMsg / IntoResponse; `enabled_features` = the cargo features switched on *)
 Definition resp_program (enabled_features : list string) : program :=
   [ {| fn_name := "SubMsg::into_msg"; fn_params := ["self"]; fn_consts := [];
